@@ -139,6 +139,10 @@ static CO_OBJ_DOM od_dom = { 0, OD_DOM_SIZE, app.dom };
 static CO_OBJ_STR od_str = { 0, app.str };
 #endif
 
+#ifdef OD_HIGH
+static uint16_t od_high[2];
+static uint8_t  od_high_b;
+#endif
 #define OD_ID(i,s,f)  CO_KEY((i),(s),(f))
 
 /* ---- dictionary (sorted) -------------------------------------------------- */
@@ -288,6 +292,14 @@ static CO_OBJ od[] = {
     { OD_ID(0x2109, 2, CO_OBJ_____RW), CO_TUNSIGNED8,  (CO_DATA)&app.arr[1] },
     { OD_ID(0x2110, 0, CO_OBJ_____RW), CO_TDOMAIN,     (CO_DATA)&od_dom },
     { OD_ID(0x2111, 0, CO_OBJ_____R_), CO_TSTRING,     (CO_DATA)&od_str },
+#endif
+#ifdef OD_HIGH
+    /* entries in the upper half of the index range (profile / network variables): index distance to the
+     * communication objects above 8000h */
+    { OD_ID(0xA100, 0, CO_OBJ_D___R_), CO_TUNSIGNED8,  (CO_DATA)2 },
+    { OD_ID(0xA100, 1, CO_OBJ_____RW), CO_TUNSIGNED16, (CO_DATA)&od_high[0] },
+    { OD_ID(0xA100, 2, CO_OBJ_____RW), CO_TUNSIGNED16, (CO_DATA)&od_high[1] },
+    { OD_ID(0xFFFF, 0, CO_OBJ_____RW), CO_TUNSIGNED8, (CO_DATA)&od_high_b },
 #endif
     CO_OBJ_DICT_ENDMARK
 };
